@@ -36,6 +36,11 @@ def main(run: Run):
     memtrees.run_bounded(run, "tree", run.tier, forced=bool(run.undecided) or any(o.status == "undecided" for o in run.obligations))
     for o in obs[:6]:
         run.sample(f"{o.fn}::{o.clause}::{o.label}")
+    from ..lean_check import status as _lean_status
+    run.extra["lean_lemmas"] = {"files": _lean_status(), "used": "Pow2.lean: dense_window_translation"}
+    for _f, _st in run.extra["lean_lemmas"]["files"].items():
+        if _st != "accepted":
+            run.assumptions.append(f"Lean lemma file {_f} is '{_st}': the SMT axioms it backs are TRUSTED in this run")
     return run.finish(
         explanation="_translate, ResourceInfo.__init__, decode_address, all_resources and find_resource are verified against "
                     "contracts over the abstract map view; recursive calls use the function's own contract on the child; the "
